@@ -177,7 +177,7 @@ Qed.
 
 Lemma good_errswap : Good (step s ErrSwap).
 Proof.
-  start. unfold step. split; proj; [| | exact H].
+  start. unfold step, err_swap. split; proj; [| | exact H].
   - intros x. pose proof (T x) as Tx. unfold tot in *. proj. rewrite keys_app, cnt_app, keys_nil. cbn [cnt].
     replace (keys (map (fun c : Z * Z => (fst c, TLost)) (reqs s))) with (keys (reqs s)); [lia|].
     unfold keys. rewrite map_map. reflexivity.
@@ -267,7 +267,7 @@ Proof.
   - destruct (defunct s || closed s); proj; auto.
   - destruct (closed s); proj; auto.
   - induction (cps s) as [|c l IH] at 2; cbn [fold_right]; proj; auto.
-  - proj. auto.
+  - unfold err_swap. proj. auto.
   - destruct (erroring s); proj; auto.
   - destruct (in_flight s <? max_id s); proj; auto.
     pose proof (GI (set_inf (in_flight s + 1) s)) as X. destruct (get_id (set_inf (in_flight s + 1) s)) as [[i|] s2]; cbn [snd] in *.
@@ -282,6 +282,7 @@ Proof.
     destruct (get_id _) as [[i|] s2]; proj; cbn [snd] in *; proj; congruence.
   - proj. auto.
   - proj. auto.
+  - destruct (defunct s); [auto|]. unfold err_swap. proj. auto.
 Qed.
 
 Lemma step_good o : raced (step s o) = false -> Good (step s o).
@@ -313,6 +314,7 @@ Proof.
   - apply good_setksgetid.
   - unfold step. apply good_flags.
   - unfold step. apply good_flags.
+  - unfold step. destruct (defunct s); [exact G|]. exact good_errswap.
 Qed.
 End Step.
 
